@@ -347,7 +347,11 @@ class MultipartForm:
         # This approach makes testing both the Cythonized and pure-Python
         #   streams easier within the same test/benchmark suite.
         if not hasattr(stream, 'read_until'):
-            assert content_length is not None
+            if content_length is None:
+                # NOTE: Without a Content-Length header there is no body that
+                #   could be read from the WSGI input stream (see also:
+                #   falcon.Request.bounded_stream).
+                content_length = 0
             if isinstance(stream, BoundedStream):
                 stream = BufferedReader(stream.stream.read, content_length)
             else:
